@@ -367,6 +367,14 @@ impl Slots {
     pub(super) fn verif_active_addr(&self) -> usize {
         self.active_addr.load(Relaxed)
     }
+
+    pub(super) fn verif_space_offer(&self) -> usize {
+        self.space_offer.load(Relaxed) as usize
+    }
+
+    pub(super) fn verif_own_envelope(&self) -> usize {
+        &self.handover as *const Handover as usize
+    }
 }
 
 #[cfg(feature = "verif-hooks")]
